@@ -487,6 +487,23 @@ static void reduce_case(vf_rng *r)
             RED("mean", a_real_mean(n, pc), s / (q_t)n, s1 / (q_t)n);
             RED("mean_", a_real_mean_(n, p, c), s / (q_t)n, s1 / (q_t)n);
         }
+        /* the same array handed in twice (with equal and with different strides): still the defining formula */
+        {
+            size_t cm = c > c2 ? c : c2;
+            a_real *al = (a_real *)malloc((n * cm ? n * cm : 1) * sizeof(a_real));
+            q_t d1 = 0, ad1 = 0, d2 = 0, ad2 = 0;
+            for (size_t j = 0; j < n * cm; ++j) { al[j] = integer ? (a_real)vf_range(r, -1000, 1000) : (a_real)(vf_sign(r) * logu(r, -6, 6)); }
+            for (size_t j = 0; j < n; ++j)
+            {
+                d1 += (q_t)al[j * c] * al[j * c2];
+                ad1 += fabsq((q_t)al[j * c] * al[j * c2]);
+                d2 += (q_t)al[j] * al[j];
+                ad2 += fabsq((q_t)al[j] * al[j]);
+            }
+            RED("dot_-same-array", a_real_dot_(n, al, c, al, c2), d1, ad1);
+            RED("dot-same-array", a_real_dot(n, al, al), d2, ad2);
+            free(al);
+        }
         cell("reduce", (int)n, (q_t)(c * 8 + c2));
         free(p); free(y); free(pc); free(yc);
     }
